@@ -64,8 +64,10 @@ PROPS = {
                 "2 MiB buckets and the modulo-2048 wrap of the pre-filter, system range shorter than the hull) + a stack mapping; stacks seeded with "
                 "boundary words (±small integers around ±4096, addresses at mapping edges and 2^32·2048 aliases, the sentinel itself); all offsets "
                 "and lengths incl. lengths shorter than the offset. Non-trivial = at least 3 word classes present; distinct = distinct "
-                "(#mappings, length, offset mod 8, class set).",
-        "expected_tags": ["word.small+", "word.small-", "word.stack", "word.code", "word.prefilter.falsepos", "word.other", "len<offset", "partial.tail"],
+                "(#mappings, length, offset mod 8, class set)."
+                " Plus real sanitizing dumps of live targets (the C01 generator): every captured stack must equal the model's sanitisation of the "
+                "target's bytes with the thread's stack pointer and the aggregated mappings (the call site).",
+        "expected_tags": ["word.small+", "word.small-", "word.stack", "word.code", "word.prefilter.falsepos", "word.other", "len<offset", "partial.tail", "stack.sanitized", "stack.defaced"],
         "trusted_base": ["little-endian 64-bit words (x86_64)"],
         "assumptions": ["mapping list as produced by aggregate: system range inside the hull, pairwise disjoint system ranges, no 64-bit overflow (WfMaps; C13)"],
         "explanation": "C12 theorems over the Lean model of sanitize_stack_copy: totality, output structure (zeros below SP, classified words, zero partial tail), "
